@@ -22,6 +22,9 @@ CHECKS = {
  'C08': ('semiring', 'TLC proves the laws on the carriers (MC_Semiring, R3) -> add/mul/sub/star/sum/from_int of the 4 semirings on all pairs/triples of carrier points, on Tensors and on PatternedTensors of 6 patterns -> TLC judge (Trace_Semiring) against the carrier operations',
          'All triples of carrier points (naturals incl. 0 and INF; integer log-weights incl. -INF/+INF; booleans; quarters for star) for every law, both dtypes, and all pairs of operand representations (dense, expanded, diagonal with default zero/one/INF, sum-axis embedding) for add/mul/sub.',
          'Trusted: TLC, Semiring.tla. The claim is restricted to the exact sub-carrier and the branch points of the closed forms: arbitrary finite floats (subnormals, huge values) cannot be enumerated by TLC and the laws do not hold bit-exactly under rounding.', 'DESIGN.md#c08'),
+ 'C09': ('linsolve', 'seeded systems and block structures on exact carriers (plus quarter-valued contractions with a TLC-verified certificate) -> Semiring.solve / PatternedTensor.solve / multi_solve (transpose) / multi_mv -> TLC judge (Trace_LinSolve): least solution by Kleene + divergence closure (LinSolve.tla; R3 MC_LinSolve: solution, above all iterates, least among solutions), arguments unmodified',
+         '1080 (quick) / 17 000 (thorough) systems with n<=4: zero rows, cycles of weight 1 and >1 (infinite least solution), infinite entries, spectral radius <1 through certified quarter-valued matrices; every subset of present blocks over <=3 block indices with scalar/vector/2-D blocks and absent diagonal blocks; patterned A and b from the typed pattern generator; 4 semirings, both dtypes, transpose on/off.',
+         'Trusted: TLC, LinSolve.tla, the assembly of block systems into one global matrix by the driver, carrier projections. Real systems with irrational/large-denominator solutions are outside the exact carriers.', 'DESIGN.md#c09'),
  'C10': ('treedec', 'TLC enumerates all graphs (MC_TreeDec; R3: DP treewidth = min over all elimination orders) -> tree_decomposition x 3 methods, min_fill, minor_min_width, quickbb -> TLC judges validity and optimality by definition (Trace_TreeDec)',
          'Exhaustive over every labelled simple graph on <=5 (quick) / <=6 (thorough) vertices in two vertex insertion orders, structured graphs (cliques, paths, cycles, stars, grids) and seeded graphs on 7-9 vertices; TLC decides tree-ness, coverage, running intersection and computes the treewidth by subset DP, itself cross-checked against all elimination orders (R3).',
          'Trusted: TLC, TreeDec.tla (definition of tree decomposition, treewidth DP), the driver that converts the returned dict of frozensets into bags/edges. Empty graph: only validity (width conventions differ).', 'DESIGN.md#c10'),
